@@ -13,6 +13,7 @@ import (
 	"sort"
 	"strings"
 	"sync"
+	"sync/atomic"
 	"time"
 
 	"github.com/alecthomas/units"
@@ -178,6 +179,8 @@ type world struct {
 	log   *evLog
 	start time.Time
 
+	holdData       atomic.Bool  // data requests wait while the harness reads the receiver's listing
+	dataInFlight   atomic.Int64 // data requests between their start and their answer
 	recv           *recvSide
 	gone           map[string]bool        // source files removed behind the sender's back before they were delivered
 	sentLogAtStart map[int]map[string]int // sender generation -> records in the sent log on disk when it started
@@ -742,6 +745,15 @@ func (s *sender) transmit(p sts.Payload) (n int, err error) {
 	if s.isDead() {
 		vfs.Park()
 	}
+	// (the harness asks the receiver for its listing now and then: while it does, no data
+	// request may be inside Receive - that holds the file's lock across the virtual
+	// pauses of the body stream, a waiter on that lock would stop the virtual clock,
+	// and the stream could never finish)
+	for w.holdData.Load() {
+		time.Sleep(20 * time.Millisecond)
+	}
+	w.dataInFlight.Add(1)
+	defer w.dataInFlight.Add(-1)
 	meta, herr := p.EncodeHeader()
 	if herr != nil {
 		return 0, herr
